@@ -36,13 +36,12 @@ func BuildMerkleTree(hashes []Hash) *MerkleTree {
 		numLeaves    = len(hashes)
 		newPow2      = nextPowerOfTwo(numLeaves)
 		depth        = log2Ceil(numLeaves)
-		paddedHashes = hashes
+		paddedHashes = make([]Hash, newPow2)
 	)
 
-	if len(hashes) != newPow2 {
-		paddedHashes = make([]Hash, newPow2)
-		copy(paddedHashes, hashes)
-	}
+	// the leaf level is always a copy: the tree must not change when the
+	// caller reuses its slice
+	copy(paddedHashes, hashes)
 
 	levels := make([][]Hash, depth+1)
 	for i := depth; i >= 0; i-- {
